@@ -1085,6 +1085,9 @@ var scSQL = map[string][]string{
 	"rollback": {"rollback", "ROLLBACK"},
 	"setac0":   {"set autocommit=0", "SET autocommit = off", "set @@autocommit = 0"},
 	"setac1":   {"set autocommit=1", "SET autocommit = on", "set @@session.autocommit = 1"},
+	"sp-set":        {"savepoint sp1", "SAVEPOINT sp1"},
+	"sp-rollbackto": {"rollback to sp1", "ROLLBACK TO SAVEPOINT sp1", "rollback work to savepoint sp1"},
+	"sp-release":    {"release savepoint sp1", "RELEASE SAVEPOINT sp1"},
 	"u-read":   {"select * from t1 where id = 1", "select id, a from t1", "SELECT count(*) FROM t1 WHERE a > 3", "show tables"},
 	"u-stream": {"select * from t1", "select id, a from t1 where a > 0"},
 	"u-write":  {"insert into t1 (id, a) values (1, 2)", "update t1 set a = 1 where id = 2", "delete from t1 where id = 3"},
@@ -1113,6 +1116,14 @@ func scConcrete(c *scCmd, user string, r *rand.Rand) (byte, []byte) {
 	switch c.K {
 	case "begin", "commit", "rollback", "setac0", "setac1":
 		return mysql.ComQuery, []byte(scPick(r, c.K))
+	case "savepoint":
+		switch c.Kind {
+		case "rollbackto":
+			return mysql.ComQuery, []byte(scPick(r, "sp-rollbackto"))
+		case "release":
+			return mysql.ComQuery, []byte(scPick(r, "sp-release"))
+		}
+		return mysql.ComQuery, []byte(scPick(r, "sp-set"))
 	case "ping":
 		return mysql.ComPing, nil
 	case "quit":
